@@ -306,6 +306,11 @@ fn main() {
         sink.merge(sx);
     }
     {
+        let k = cat::enum_lists_with_foreign_content().1;
+        let sx = par_run(run.threads, k.len(), |i, sink| check_single(&k[i].buf, sink));
+        sink.merge(sx);
+    }
+    {
         let k = cat::text_extensions();
         let sx = par_run(run.threads, k.len(), |i, sink| check_single(&k[i].buf, sink));
         sink.merge(sx);
